@@ -10,7 +10,7 @@ from .. import roles
 from ..cfg import handler_is_catch_all
 from ..dataflow import expand_locals
 from ..engine import (Ctx, calls_in, cond_from_entry, cond_in_loop, early_exits, field_writes, formula_of, kwarg,
-                      loop_region, rule, same_expr, strip_order_preserving)
+                      loop_region, memo_decorators, rule, same_expr, strip_order_preserving)
 from ..formula import TRUE, canon, equivalent, f_not, implies, show
 from ..model import PKG, AnalysisError, FuncInfo, dotted, src, walk_local
 from .runners import _handler_always_raises
@@ -346,7 +346,7 @@ def save_writes_both(ctx: Ctx):
                  '' if okt else "metadata['task'] is not the serialisation of the saved task", construct='meta-task')
 
 
-@rule('C06.ISCACHED-CHAIN', ['C06', 'C08', 'C12', 'C13'])
+@rule('C06.ISCACHED-CHAIN', ['C06', 'C08', 'C12', 'C13', 'C03'])
 def iscached_chain(ctx: Ctx):
     """Lab.is_cached(task) -> task._lt.cache.is_cached(self._storage, task) -> storage.exists(task.cache_key)."""
     lab_ic = ctx.P.func('lab.Lab.is_cached')
@@ -942,7 +942,7 @@ def find_keys(ctx: Ctx):
                  'NullStorage.find_keys reports keys', construct='null')
 
 
-@rule('C06.CACHE-STATELESS', ['C06', 'C08', 'C09'])
+@rule('C06.CACHE-STATELESS', ['C06', 'C08', 'C09', 'C03'])
 def cache_stateless(ctx: Ctx):
     """Cache objects are shared by every Lab, storage and worker of a process: outside __init__ no Cache method
     writes an attribute of self (a memo of storage contents would be served for another storage or go stale)."""
@@ -958,6 +958,28 @@ def cache_stateless(ctx: Ctx):
                          'worker processes: what it remembers about one storage entry is served for another or goes stale')
     if n == 0:
         raise AnalysisError('no Cache methods found')
+
+
+@rule('C08.STORAGE-STATELESS', ['C08', 'C06', 'C03', 'C12', 'C13', 'C09'])
+def storage_stateless(ctx: Ctx):
+    """A Storage object answers from the backing store every time: outside __init__ no Storage method writes an attribute of
+    self.  Entries are written and deleted by *other* processes (the task workers), so anything the parent's storage object
+    remembers about a key - that it exists, that it does not, a listing - is stale the moment a worker saves."""
+    n = 0
+    for c in ctx.P.subclasses(roles.STORAGE):
+        for m in c.methods.values():
+            if m.name == '__init__':
+                continue
+            n += 1
+            ws = field_writes(m)
+            md = memo_decorators(m)
+            ok = not ws and not md
+            yield ctx.ob('C08.STORAGE-STATELESS', ok, m, ws[0].node if ws else m.node, f'{c.name}.{m.name} keeps no state on the storage object',
+                         '' if ok else (f'`{src(ws[0].node)[:60]}` stores state on the storage object' if ws else f'{m.name} is memoised ({md})') +
+                         ': results are saved and deleted by worker processes, so what the parent remembers about a key goes stale '
+                         '(a cached task is re-executed, a deleted one is reported cached)')
+    if n == 0:
+        raise AnalysisError('no Storage methods found')
 
 
 @rule('C13.PREPARE-BEFORE-VISIBLE', ['C13', 'C12'])
